@@ -2,6 +2,7 @@
 
 import re
 from argparse import (
+    ArgumentError,
     OPTIONAL,
     SUPPRESS,
     ZERO_OR_MORE,
@@ -122,7 +123,7 @@ class DefaultHelpFormatter(HelpFormatter):
             for key in parser.required_args:
                 try:
                     default = parser.get_default(key)
-                except NSKeyError:
+                except (NSKeyError, TypeError, ArgumentError):  # (also a problem in a default config file: the usage is still due)
                     default = None
                 if default is None and f"[--{key} " in usage:
                     usage = re.sub(f"\\[(--{key} [^\\]]+)]", r"\1", usage, count=1)
